@@ -1040,6 +1040,44 @@ theorem density_matrix_semantics_refines_stabilizer_semantics (ne np : Nat) (a :
     Commute.TInv (ne + np) (Commute.apiPs (d.prims (d.out sc)) t) :=
   Commute.appD_refines_appRaw ne np a d hd t ht sc hhas hok c
 
+/-- **the density-matrix semantics is tied to the compile loop, measurements included**: for every sane circuit, order, setting
+    and script, if the stabilizer backend (`stabRun`) returns the state `s'`, then the density-matrix semantics run along the
+    same compile sequence from `|0…0⟩⟨0…0|`, on the outcome streams made of the outcomes `stabRun` recorded, ends in
+    `w · ρ(s'.t)` with `w ≠ 0` — the density matrix of the compiled tableau times the probability of the recorded outcomes —
+    and has consumed exactly those outcomes.  (`Commute.run_refines_dm` + `Commute.stabRun_refines` + gauge independence
+    `Commute.rho_eq_of_grp_eq`.) -/
+theorem density_matrix_run_is_weighted_rho_of_compiled_tableau (c : Circuit) (hgood : c.Good) (har : Commute.ArityOk c)
+    (seq : List Nat) (d : Det) (script : List Bool) (s' : RunState)
+    (h : stabRun c.ne c.np d script ((c.sops seq).map Commute.toCOp) = some s') (sc : Commute.Script) :
+    ∃ w : ℂ, w ≠ 0 ∧
+      runSeq (Commute.appD c.ne c.np) (c.sops seq)
+        (some (Hilbert.tabRho (c.ne + c.np) (Tab.ket0 (c.ne + c.np)), Commute.feed c.ne c.np (c.sops seq) s'.outs sc))
+        = some (w • Hilbert.tabRho (c.ne + c.np) s'.t, sc) := by
+  obtain ⟨hT, hrun⟩ := Commute.stabRun_refines c hgood har seq d script s' h
+  have hinit : Commute.TInv (c.ne + c.np) (Tab.ket0 (c.ne + c.np)) :=
+    ⟨Tab.ket0_valid _, Hilbert.ket0_stabReal _, rfl⟩
+  obtain ⟨t', w, hw, ht', hg', hD⟩ := Commute.run_refines_dm c.ne c.np (c.sops seq) (Commute.sops_ok c hgood har seq)
+    (Tab.ket0 (c.ne + c.np)) (Commute.feed c.ne c.np (c.sops seq) s'.outs sc) 1 hinit (TabSpec.gstate s'.t) sc (hrun sc)
+  have hρ : Hilbert.tabRho (c.ne + c.np) t' = Hilbert.tabRho (c.ne + c.np) s'.t := by
+    apply Commute.rho_eq_of_grp_eq ht' hT
+    intro P
+    have := congrArg TabSpec.GState.G hg'
+    exact (iff_of_eq (congrFun this P)).symm
+  rw [one_smul, one_mul, hρ] at hD
+  exact ⟨w, hw, hD⟩
+
+/-- the hypotheses of `density_matrix_run_is_weighted_rho_of_compiled_tableau` are met by `exD` (a circuit with a measurement,
+    forced to 1, which is random): `stabRun` returns, so the density-matrix run along its compile sequence ends in a non-zero
+    multiple of the density matrix of the compiled tableau -/
+example (sc : Commute.Script) : ∃ (s' : RunState) (w : ℂ), w ≠ 0 ∧
+    runSeq (Commute.appD exD.ne exD.np) (exD.sops [1, 2, 3, 4])
+      (some (Hilbert.tabRho (exD.ne + exD.np) (Tab.ket0 (exD.ne + exD.np)), Commute.feed exD.ne exD.np (exD.sops [1, 2, 3, 4]) s'.outs sc))
+      = some (w • Hilbert.tabRho (exD.ne + exD.np) s'.t, sc) := by
+  have e1 : (stabRun exD.ne exD.np .one [] ((exD.sops [1, 2, 3, 4]).map Commute.toCOp)).isSome = true := by decide +kernel
+  obtain ⟨s1, h1⟩ := Option.isSome_iff_exists.mp e1
+  obtain ⟨w, hw, hD⟩ := density_matrix_run_is_weighted_rho_of_compiled_tableau exD exD_good exD_arity [1, 2, 3, 4] .one [] s1 h1 sc
+  exact ⟨s1, w, hw, hD⟩
+
 /-- its hypotheses are met: `ClassicalCNOT(p0 → p1)` on two photons with recorded outcome 1 decodes to
     `[measure p0 ↦ 1, X p1]`, both within range, and an outcome is supplied -/
 example : ∃ d, Commute.decode 0 2 ⟨.node .ccnot [⟨.p, 0⟩, ⟨.p, 1⟩] [0], [⟨.p, 0⟩, ⟨.p, 1⟩]⟩ = some d ∧
